@@ -434,6 +434,24 @@ def norm_block(stmts: list) -> list:
                 setattr(s, f, norm_block(b))
         for h in getattr(s, "handlers", []) or []:
             h.body = norm_block(h.body)
+    # loop bodies: `if c: continue` + rest  ->  `if not c: rest` ; `if a: if b: X`  ->  `if a and b: X`
+    for s in stmts:
+        if isinstance(s, (ast.For, ast.AsyncFor)):
+            body = list(s.body)
+            for k in range(len(body) - 1, -1, -1):
+                b = body[k]
+                if isinstance(b, ast.If) and not b.orelse and len(b.body) == 1 and isinstance(b.body[0], ast.Continue) and body[k + 1:]:
+                    neg = _ExprNorm().visit(ast.UnaryOp(op=ast.Not(), operand=b.test))
+                    body = body[:k] + [ast.copy_location(ast.If(test=neg, body=body[k + 1:], orelse=[]), b)]
+            changed_ = True
+            while changed_:
+                changed_ = False
+                if len(body) == 1 and isinstance(body[0], ast.If) and not body[0].orelse and len(body[0].body) == 1 \
+                        and isinstance(body[0].body[0], ast.If) and not body[0].body[0].orelse:
+                    inner_ = body[0].body[0]
+                    body = [ast.copy_location(ast.If(test=ast.BoolOp(op=ast.And(), values=[body[0].test, inner_.test]), body=inner_.body, orelse=[]), body[0])]
+                    changed_ = True
+            s.body = body
     i = 0
     n = len(stmts)
     while i < n:
